@@ -92,7 +92,7 @@ def run(ctx):
     rng = ctx.rng
     progs = []
     # the recorded witness first (text of Rules/Wf.v WfExamples.Dh is rebuilt by the generator's circular shape; here verbatim)
-    for _ in range(ctx.n(36, 600)):
+    for _ in range(ctx.n(22, 500)):
         progs.append(eg.gen_wf_program(rng))
     cases, meta = [], []
     for i, (p, info) in enumerate(progs):
@@ -129,17 +129,17 @@ def run(ctx):
         if "accepted" not in real[i].values():
             continue
         st = p.symtab()
-        univ = eg.universe(p, depth=2, limit=ctx.n(14, 30))
+        univ = eg.universe(p, depth=2, limit=ctx.n(10, 30))
         for ti, t in enumerate(decl_traits(p)):
             n = 1 + p.traits[ti].nextra
-            for args in arg_tuples(univ, n, ctx.n(40, 200), rng):
+            for args in arg_tuples(univ, n, ctx.n(25, 200), rng):
                 cexprs.append((["D%d" % i], "concl_trait %d D%d %s %s" % (FUEL, i, sx.to_coq(t), sx.to_coq([ground_model(a, st) for a in args]))))
                 cmeta.append((i, "trait", p.traits[ti].name, args))
         for ai, a in enumerate(decl_adts(p)):
             n = p.adts[ai].nparams
             if n == 0 and not p.adts[ai].variants[0]:
                 continue
-            for args in arg_tuples(univ, n, ctx.n(40, 200), rng):
+            for args in arg_tuples(univ, n, ctx.n(25, 200), rng):
                 cexprs.append((["D%d" % i], "concl_adt %d D%d %s %s" % (FUEL, i, sx.to_coq(a), sx.to_coq([ground_model(x, st) for x in args]))))
                 cmeta.append((i, "adt", p.adts[ai].name, args))
     ccodes, fl = logic.coq_codes(ctx.work, "concl", defs, cexprs, shard=max(40, len(cexprs) // 16 + 1), imports=IMPORTS)
